@@ -57,7 +57,7 @@ def can_sort(state, a):
     return lab["name"]["on"]
 
 
-def genotype_step(ctx, cur, pre, kind, presence, rng, out, hid, step):
+def genotype_step(ctx, cur, pre, kind, presence, rng, out, hid, step, which=None, invert=None):
     """genotyping protocols as operations on the variant axis: the genotyped matrix is the selection of the unmasked
     variants (all variants for the plain protocol), every label array and any reported grouping must describe it"""
     from pybrops.breed.prot.gt.DenseUnphasedGenotyping import DenseUnphasedGenotyping
@@ -65,8 +65,8 @@ def genotype_step(ctx, cur, pre, kind, presence, rng, out, hid, step):
     from pybrops.breed.prot.gt.DenseMaskedPhasedGenotyping import DenseMaskedPhasedGenotyping
     nv = len(pre["ax"]["vrnt"])
     mask_on = pre["lab"]["vrnt"]["mask"]["on"]
-    which = rng.choice(["plain", "masked-unphased", "masked-phased"])
-    invert = rng.random() < 0.5
+    which = rng.choice(["plain", "masked-unphased", "masked-phased"]) if which is None else which
+    invert = (rng.random() < 0.5) if invert is None else invert
     if which == "plain" or not mask_on:
         ix = list(range(nv)); prot = DenseUnphasedGenotyping(); name = "DenseUnphasedGenotyping.genotype"; okind = "TV"
         if which != "plain":
@@ -229,6 +229,27 @@ def run(ctx):
             for _ in range(nh if presence == "all" else max(1, nh // 3)):
                 hid += 1
                 run_history(ctx, clsname, presence, rng, steps, out, hid)
+    # genotyping protocols, systematically: sources with a mask, ungrouped and grouped along the variant axis (several
+    # chromosomes with different numbers of masked-in and masked-out variants), every protocol with and without invert
+    for rep in range(6 if thorough else 2):
+        for grouped in (False, True):
+            for which in ("plain", "masked-unphased", "masked-phased"):
+                for invert in (False, True):
+                    hid += 1
+                    ax0 = {"taxa": [rng.randrange(lm.NID) for _ in range(rng.randrange(1, 4))],
+                           "vrnt": [rng.randrange(lm.NID) for _ in range(rng.randrange(3, 8))], "trait": []}
+                    try:
+                        cur = lm.build("DensePhasedGenotypeMatrix", ax0, "all")
+                        if grouped:
+                            cur.group_vrnt()
+                    except Exception as e:
+                        ctx.violation("DensePhasedGenotypeMatrix.__init__:exception", "%s: %s" % (type(e).__name__, e), {"ax": ax0})
+                        continue
+                    kind = lm.get_class("DensePhasedGenotypeMatrix")[1]
+                    pre = lm.project(cur, kind)
+                    if -1 in pre["ax"]["vrnt"] or not pre["ok"]["cells"]:
+                        continue
+                    genotype_step(ctx, cur, pre, kind, "all", rng, out, hid, 0, which, invert)
     tl = []
     for c in out:
         d = {k: v for k, v in c.items()}
